@@ -5,7 +5,7 @@ import C19
 
 def obligations(tier):
     obs = []
-    for nops in ((1, 2) if tier == "quick" else (1, 2, 3)):
+    for nops in ((1,) if tier == "quick" else (1, 2)):  # seq2 takes ~18 min CPU
         loops = {"memcpy#0": 8, "memcpy#1": 50, "_MIR_set_code#0": 3, "_MIR_set_code#1": 3, "_MIR_update_code_arr#0": 3,
                  "code_finish#0": nops + 2, "h_ledger_find#0": 8, "h_ledger_live#0": 8, "h_mem_protect#0": 8, "h_memcpy_hook#0": 8,
                  "h_memcpy_hook#1": 50, "h_mem_map#0": 8, "h_mem_unmap#0": 8, "h_mem_unmap#1": 8, "h_no_page_writable#0": 8}
@@ -24,7 +24,7 @@ def obligations(tier):
 
 
 META = {
-    "bounds": {"code holders": "<= 2 (quick) / 3 (thorough) operations, lengths 0..48 bytes, page size 64, arena 6 pages",
+    "bounds": {"code holders": "<= 1 (quick) / 2 (thorough) operations, lengths 0..48 bytes, page size 64, arena 6 pages",
                "containers": "as C19 (VARR one step from an arbitrary state; HTAB operation sequences)"},
     "assumptions": ["code memory is an integer address range backed by a shadow array written only by the observed memcpy "
                     "(the library writes code memory through memcpy in _MIR_set_code only; symbolic object addresses make the page arithmetic intractable)",
